@@ -34,7 +34,7 @@ LEVEL_TEXT = (
 RULE = (
     "random content programs (20-70 operators quick) over q Q cm BT ET Tc Tw Tz TL Tf Ts Td TD Tm T* Tj TJ ' \" g rg k G RG K, cs/CS with the device colour spaces followed by sc/scn/SC/SCN (sometimes with an empty q Q between), "
     "and Do of form XObjects (own /Matrix, /Resources or the page's by omission, nested <=3) with dyadic operands; 2-3 simple "
-    "fonts per page (a fifth of them Type 3 with /FontMatrix scale 1/1000, 1/100 or 1/512; a third of the pages with an Identity-H composite font) with random /Widths (incl. 0 and halves), sizes incl. negative and fractional; malformed occurrences "
+    "fonts per page (a fifth of them Type 3 with /FontMatrix scale 1/1000, 1/100 or 1/512, half of those oblique; a quarter of the judged pages follow a page that leaves text state and colours behind; a third of the pages with an Identity-H composite font) with random /Widths (incl. 0 and halves), sizes incl. negative and fractional; malformed occurrences "
     "(missing / ill-typed operands) of every operator, each followed by a well-formed instance; program emitted as one stream "
     "and as Contents arrays split at white space (white space kept on one side). distinct = distinct content bytes; "
     "non-trivial = >=1 glyph shown and >=5 distinct operators. Not generated: q/Q with anything between them inside text objects, Contents split "
@@ -54,10 +54,10 @@ REL = 1e-9
 def minimums(tier: str) -> Dict[str, int]:
     if tier == "quick":
         return {"evaluations": 1000, "distinct": 900, "glyphs_compared": 20000, "glyph_matrices_asserted": 15000, "form_invocations": 400,
-                "malformed_ops": 1500, "split_contents_docs": 300, "seen:operators": 26, "glyphs_two_byte_font": 2000, "glyphs_cid32_two_byte": 60, "glyphs_type3_font_matrix": 2500}
+                "malformed_ops": 1500, "split_contents_docs": 300, "seen:operators": 26, "glyphs_two_byte_font": 2000, "glyphs_cid32_two_byte": 60, "glyphs_type3_font_matrix": 2500, "pages_judged_after_an_earlier_page": 200}
     return {"evaluations": 30000, "distinct": 28000, "glyphs_compared": 600000, "glyph_matrices_asserted": 450000,
             "form_invocations": 25000, "malformed_ops": 45000, "split_contents_docs": 9000, "seen:operators": 26,
-            "glyphs_two_byte_font": 50000, "glyphs_cid32_two_byte": 1500, "glyphs_type3_font_matrix": 60000}
+            "glyphs_two_byte_font": 50000, "glyphs_cid32_two_byte": 1500, "glyphs_type3_font_matrix": 60000, "pages_judged_after_an_earlier_page": 6000}
 
 
 def shards(tier: str, seed: int) -> List[Dict[str, Any]]:
@@ -118,7 +118,8 @@ def gen_fonts(rng: random.Random, prefix: str, k: int) -> Tuple[Dict[str, FontMo
             dsc = rng.choice([-unit // 4, 0, -unit // 8])
             fname = "%s-%s" % (prefix, rn)
             fonts[rn] = FontModel(rn, fname, 0, widths, 0, dsc * sc * 1000, wscale=sc)
-            res[rn] = {"Type": N("Font"), "Subtype": N("Type3"), "FontBBox": [0, dsc, unit, unit + dsc], "FontMatrix": [Real(str(float(sc))), 0, 0, Real(str(float(sc))), 0, 0],
+            shear = rng.choice([0, 0, Real(str(float(sc * 3 / 8))), Real(str(float(-sc / 4)))])   # an oblique font: c != 0 leaves both scales alone
+            res[rn] = {"Type": N("Font"), "Subtype": N("Type3"), "FontBBox": [0, dsc, unit, unit + dsc], "FontMatrix": [Real(str(float(sc))), 0, shear, Real(str(float(sc))), 0, 0],
                        "CharProcs": {}, "Encoding": {"Type": N("Encoding"), "BaseEncoding": N("WinAnsiEncoding"), "Differences": []},
                        "FirstChar": 0, "LastChar": 255, "Widths": widths,
                        "FontDescriptor": {"Type": N("FontDescriptor"), "FontName": N(fname), "Flags": 32, "FontBBox": [0, dsc, unit, unit + dsc],
@@ -368,14 +369,22 @@ def gen_case(seed_str: str, tier: str) -> Dict[str, Any]:
     pages = doc.alloc()
     crefs = [doc.add(Stream({}, s)) for s in fixed]
     mediabox = [0, 0, 612, 792]
+    kids = []
+    if rng.random() < 0.25:
+        # an earlier page, interpreted first by the same interpreter, that leaves text state and colours behind: the judged
+        # page starts from the initial state all the same (9.3.1: the text state parameters are initialised per page)
+        fn = sorted(page_fonts)[0].encode()
+        before = b"7 Tc 3 Tw 50 Tz 14 TL 5 Ts /" + fn + b" 9 Tf 0.5 g 1 0 0 RG BT 10 10 Td (" + (b"ab" if not page_fonts[sorted(page_fonts)[0]].multibyte else b"a b ") + b") Tj ET"
+        kids.append(doc.add({"Type": N("Page"), "Parent": pages, "MediaBox": mediabox, "Resources": res, "Contents": doc.add(Stream({}, before))}))
     page = doc.add({"Type": N("Page"), "Parent": pages, "MediaBox": mediabox, "Resources": res,
                     "Contents": crefs[0] if len(crefs) == 1 else crefs})
-    doc.set(pages, {"Type": N("Pages"), "Kids": [page], "Count": 1})
+    kids.append(page)
+    doc.set(pages, {"Type": N("Pages"), "Kids": kids, "Count": len(kids)})
     doc.set(cat, {"Type": N("Catalog"), "Pages": pages})
     doc.trailer["Root"] = cat
     model = TextModel(page_fonts, mforms)
     return {"pdf": doc.build(), "model": model, "ops": ops, "nstreams": len(fixed), "p_bad": p_bad, "forms": mforms,
-            "content": b"|".join(fixed)}
+            "content": b"|".join(fixed), "pages_before": len(kids) - 1}
 
 
 # --------------------------------------------------------------------------
@@ -414,8 +423,11 @@ def observe(pdf: bytes):
     rm = PDFResourceManager()
     dev = PDFPageAggregator(rm, laparams=None)
     it = _interp_class()(rm, dev)
-    page = next(PDFPage.get_pages(io.BytesIO(pdf)))
-    it.process_page(page)
+    pages = list(PDFPage.get_pages(io.BytesIO(pdf)))
+    for page in pages[:-1]:           # earlier pages go through the same interpreter; the last page is judged
+        it.process_page(page)
+    del _DO_LOG[:]
+    it.process_page(pages[-1])
     lt = dev.get_result()
     chars: List[Any] = []
 
@@ -548,6 +560,8 @@ def run_shard(spec: Dict[str, Any], rec) -> None:
         rec.count("malformed_ops", nbad)
         if case["nstreams"] > 1:
             rec.count("split_contents_docs")
+        if case.get("pages_before"):
+            rec.count("pages_judged_after_an_earlier_page")
         nglyph = len(case["model"].glyphs)
         rec.case(chash(case["content"]), nglyph >= 1 and len(opnames) >= 5)
         for key, detail in fails:
